@@ -55,6 +55,12 @@ type signCase struct {
 	ExtChecked bool  `json:"ext_checked"` // the token could be extracted for an independent check
 	ExtOK     bool   `json:"ext_ok"`      // openssl accepts the attached token for this signature value
 	ExtNote   string `json:"ext_note,omitempty"`
+	// timing (authorities with a timed delivery, timed.go): when each authority was asked, when the client gave up on a
+	// connection the authority kept open (-1: not before the harness cleaned up, -2: n/a), how long signing took
+	HitAt    []int `json:"hit_at"`
+	GoneAt   []int `json:"gone_at"`
+	WallMS   int   `json:"wall_ms"`
+	TimeoutS int   `json:"timeout_s"`
 }
 
 type signEnv struct {
@@ -185,7 +191,9 @@ func (e *signEnv) run(cs *signCase) {
 	seq := cs.Seq
 	var tc *tsaCase
 	if tsaKey != "" {
-		tc = &tsaCase{style: cs.Style, seq: seq, reqOK: true, sent: map[int][]byte{}, encdigFree: true, timeout: 2 * time.Second}
+		tc = &tsaCase{style: cs.Style, seq: seq, reqOK: true, sent: map[int][]byte{}, encdigFree: true, timeout: 2 * time.Second,
+			t0: time.Now(), cap: 4500 * time.Millisecond, goneAt: map[int]int{}}
+		cs.TimeoutS = 2
 		e.f.cases.Store(tsaKey, tc)
 		defer e.f.cases.Delete(tsaKey)
 	}
@@ -207,7 +215,9 @@ func (e *signEnv) run(cs *signCase) {
 				cs.Result, cs.ErrText = "panic", fmt.Sprint(r)
 			}
 		}()
+		tStart := time.Now()
 		err := e.signFile(mod, keyName, flags, in, out)
+		cs.WallMS = int(time.Since(tStart) / time.Millisecond)
 		slowNow := func() bool {
 			if tc == nil {
 				return false
@@ -236,11 +246,14 @@ func (e *signEnv) run(cs *signCase) {
 			cs.Retried++
 			if tc != nil {
 				tc.mu.Lock()
-				tc.hits = nil
+				tc.hits, tc.hitAt, tc.goneAt = nil, nil, map[int]int{}
+				tc.t0 = time.Now()
 				tc.mu.Unlock()
 			}
 			os.Remove(out)
+			tStart = time.Now()
 			err = e.signFile(mod, keyName, flags, in, out)
+			cs.WallMS = int(time.Since(tStart) / time.Millisecond)
 		}
 		if err != nil {
 			cs.Result, cs.ErrText = "err", trunc(err.Error(), 300)
@@ -249,8 +262,17 @@ func (e *signEnv) run(cs *signCase) {
 		}
 	}()
 	if tc != nil {
+		time.Sleep(20 * time.Millisecond) // let a silent authority notice that the client has gone
 		tc.mu.Lock()
 		cs.Hits = append([]int{}, tc.hits...)
+		cs.HitAt = append([]int{}, tc.hitAt...)
+		for _, h := range tc.hits {
+			g, ok := tc.goneAt[h]
+			if !ok {
+				g = -2
+			}
+			cs.GoneAt = append(cs.GoneAt, g)
+		}
 		cs.ReqOK, cs.ReqNote = tc.reqOK, tc.reqNote
 		tc.mu.Unlock()
 	}
@@ -428,6 +450,17 @@ func buildSignCases(tier string) []*signCase {
 			}
 		}
 		add(t.typ, t.file, "rfc3161", "named", []string{"hang", "good"})
+		// end to end with authorities that misbehave in time (timed.go): stall in mid-body / drip, then a healthy one;
+		// a slow but complete answer; every authority stalls or tears the reply (signing must fail)
+		switch ti {
+		case 0:
+			add(t.typ, t.file, "rfc3161", "named", []string{"t_stall_mid_body", "good"})
+			add(t.typ, t.file, "rfc3161", "named", []string{"t_slow_ok"})
+		case 1:
+			add(t.typ, t.file, "rfc3161", "named", []string{"t_drip", "good"})
+		case 3:
+			add(t.typ, t.file, "rfc3161", "named", []string{"t_stall_after_headers", "t_close_mid_body"})
+		}
 	}
 	// legacy Microsoft style: only the application manifest signer can ask for it
 	lb := nonRefused(behavioursLegacy)
